@@ -53,6 +53,12 @@ def build(tier, seed):
     given = [o for o in o2 if 'ipr::Optional<ipr::Type>' in o.clause or 'const ipr::Type &' in o.clause]
     for o in given:
         o.id = 'C09.given.' + o.id.split('.', 1)[1]
+    import C04
+    u4, o4, m4 = C04.build(tier, seed)
+    o4 = [o for o in o4 if o.id in ('C04.get.symbol', 'C04.get.this', 'C04.get.symbol_then_label', 'C04.get.symbol_then_this', 'C04.get.label_then_symbol')]
+    for o in o4:
+        o.id = 'C09.given.atoms.' + o.id.split('.', 2)[2]      # symbols, `this`, labels are given their type at construction and keep it across related requests
+    given = given + o4; u2 = u2 + u4
     meta = dict(sweep_family='C09', functions_under_contract=sorted(names.values()), kinds=len(KINDS), given_type_factories=len(given),
                 assumptions=['expected constants come from the Lexicon\'s own accessors (C13)', 'operands are arbitrary foreign nodes whose type() is an arbitrary function of the node',
                              'std::forward_list / std::vector<const void*> / std::deque sequence models (harness/flmodel.h, harness/seqmodel.h)',
